@@ -14,16 +14,17 @@ import (
 
 var usedAxioms = map[string]bool{}
 
-func (vc *VC) unicodePred(name string) string {
+// unicode predicates: uninterpreted, fixed on ASCII / Latin-1 by ground instances
+func (vc *VC) unicodePred(name string, arg string) string {
 	fn := "unicode." + name
-	usedAxioms["A2:"+fn] = true
+	usedAxioms["A2:"+fn+" (uninterpreted; fixed on ASCII)"] = true
 	vc.sc.decl(fn, fmt.Sprintf("(declare-fun %s (Int) Bool)", fn))
 	var body string
+	limit := "128"
 	switch name {
 	case "IsSpace":
 		body = "(or (and (>= c 9) (<= c 13)) (= c 32) (= c 133) (= c 160))"
-		vc.sc.declAxiom(fn, fmt.Sprintf("(forall ((c Int)) (! (=> (and (>= c 0) (< c 256)) (= (%s c) %s)) :pattern ((%s c))))", fn, body, fn), fn)
-		return fn
+		limit = "256"
 	case "IsDigit":
 		body = "(and (>= c 48) (<= c 57))"
 	case "IsUpper":
@@ -33,10 +34,21 @@ func (vc *VC) unicodePred(name string) string {
 	case "IsLetter":
 		body = "(or (and (>= c 65) (<= c 90)) (and (>= c 97) (<= c 122)))"
 	default:
-		return fn
+		return app(fn, arg)
 	}
-	vc.sc.declAxiom(fn, fmt.Sprintf("(forall ((c Int)) (! (=> (and (>= c 0) (< c 128)) (= (%s c) %s)) :pattern ((%s c))))", fn, body, fn), fn)
-	return fn
+	if strings.Contains(arg, "?") {
+		vc.sc.declAxiom(fn, fmt.Sprintf("(forall ((c Int)) (! (=> (and (>= c 0) (< c %s)) (= (%s c) %s)) :pattern ((%s c))))", limit, fn, body, fn), fn)
+		return app(fn, arg)
+	}
+	c := vc.sc.define("uc", "Int", arg)
+	inst := strings.ReplaceAll(body, " c ", " "+c+" ")
+	inst = strings.ReplaceAll(inst, " c)", " "+c+")")
+	key := "inst:" + fn + ":" + c
+	if !vc.sc.declSet[key] {
+		vc.sc.declSet[key] = true
+		vc.sc.assume(fmt.Sprintf("(=> (and (>= %s 0) (< %s %s)) (= (%s %s) %s))", c, c, limit, fn, c, inst))
+	}
+	return app(fn, c)
 }
 
 func (f *Frame) external(fn *ssa.Function, args []Val, c *ssa.CallCommon, pos token.Pos) (Val, bool) {
@@ -52,8 +64,7 @@ func (f *Frame) external(fn *ssa.Function, args []Val, c *ssa.CallCommon, pos to
 	a := func(i int) string { return f.materialize(args[i]) }
 	switch name {
 	case "unicode.IsSpace", "unicode.IsDigit", "unicode.IsUpper", "unicode.IsLower", "unicode.IsLetter":
-		p := vc.unicodePred(strings.TrimPrefix(name, "unicode."))
-		return Val{t: app(p, a(0)), typ: boolT}, false
+		return Val{t: vc.unicodePred(strings.TrimPrefix(name, "unicode."), a(0)), typ: boolT}, false
 	case "strings.Contains":
 		return Val{t: app("str.contains", a(0), a(1)), typ: boolT}, false
 	case "strings.HasPrefix":
@@ -90,12 +101,57 @@ func (f *Frame) external(fn *ssa.Function, args []Val, c *ssa.CallCommon, pos to
 		return r, false
 	case "os.Exit":
 		return Val{}, true
-	case "(*strings.Builder).String":
-		return vc.freshVal("builder.String", strT), false
-	case "(*strings.Builder).Len":
-		r := vc.freshVal("builder.Len", intT)
-		f.assume(app(">=", r.t, "0"))
-		return r, false
+	case "(*strings.Builder).String", "(*strings.Builder).Len", "(*strings.Builder).WriteRune", "(*strings.Builder).WriteByte", "(*strings.Builder).WriteString", "(*strings.Builder).Write", "(*strings.Builder).Reset":
+		// strings.Builder is modelled through its real field `buf []byte`: writes extend len(buf),
+		// String() returns a string of that length (contents opaque).
+		usedAxioms["A2:strings.Builder (len(String()) == bytes written; contents opaque)"] = true
+		owner := sig.Recv().Type().Underlying().(*types.Pointer).Elem()
+		st := owner.Underlying().(*types.Struct)
+		bi := -1
+		for i := 0; i < st.NumFields(); i++ {
+			if st.Field(i).Name() == "buf" {
+				bi = i
+			}
+		}
+		if bi < 0 || args[0].addr != nil {
+			break
+		}
+		l, li := locField(owner, bi)
+		ad := &Addr{kind: "F", loc: l, li: li, ref: args[0].t}
+		cur := vc.sc.define("builder.buf", sortSlice, f.readAddr(ad))
+		f.assume(f.tinv(st.Field(bi).Type(), cur))
+		curLen := app("s_len", cur)
+		grow := func(k string) {
+			nb := vc.sc.freshConst("builder.buf'", sortSlice)
+			f.assume(f.tinv(st.Field(bi).Type(), nb))
+			f.assume(eq(app("s_len", nb), app("+", curLen, k)))
+			f.writeAddr(ad, nb)
+		}
+		switch fn.Name() {
+		case "String":
+			r := vc.freshVal("builder.String", strT)
+			f.assume(eq(app("str.len", r.t), curLen))
+			return r, false
+		case "Len":
+			return Val{t: curLen, typ: intT}, false
+		case "Reset":
+			f.writeAddr(ad, "(mk_slice 0 0 0 0)")
+			return Val{}, false
+		case "WriteByte":
+			grow("1")
+			return vc.freshResult(f, sig.Results(), fn.Name()), false
+		case "WriteRune":
+			k := vc.sc.freshConst("utf8len", "Int")
+			f.assume(and(app(">=", k, "1"), app("<=", k, "4")))
+			grow(k)
+			return vc.freshResult(f, sig.Results(), fn.Name()), false
+		case "WriteString":
+			grow(app("str.len", a(1)))
+			return vc.freshResult(f, sig.Results(), fn.Name()), false
+		case "Write":
+			grow(app("s_len", a(1)))
+			return vc.freshResult(f, sig.Results(), fn.Name()), false
+		}
 	case "strconv.Itoa":
 		vc.sc.decl("strconv.Itoa", "(declare-fun strconv.Itoa (Int) String)")
 		return Val{t: app("strconv.Itoa", a(0)), typ: strT}, false
